@@ -64,7 +64,7 @@ def sec_ubox(draw):
         st.tuples(st.just("xc"), fl(-500, 500)), st.tuples(st.just("yc"), fl(-500, 500)),
         st.tuples(st.just("angle"), angle), st.tuples(st.just("aspect"), fl(0.2, 4.0)),
         st.tuples(st.just("height"), fl(2.0, 200.0)), st.tuples(st.just("confidence"), conf_any),
-        st.tuples(st.just("rotate"), fl(-3.2, 3.2)), st.tuples(st.just("gen_vertices"), st.none())), max_size=5))
+        st.tuples(st.just("rotate"), fl(-3.2, 3.2)), st.tuples(st.just("gen_vertices"), st.none()), st.tuples(st.just("gen_vertices"), st.none())), max_size=6))
     return d
 
 
@@ -320,6 +320,7 @@ def run_section(s):
                     tr.append("confidence-rejected" if isinstance(r, dict) else "ok")
                 else:
                     setattr(u, name, v)
+                tr.append([list(p) for p in u.get_vertices().get_points()])
             ltwh = guard(lambda: bbox_trace(u.as_ltwh()))
             return {"ubox": ubox_trace(u), "radius": u.get_radius(), "area": u.area(), "ltwh": ltwh, "vertices": [list(p) for p in u.get_vertices().get_points()], "edits": tr}
         return guard(f)
